@@ -21,6 +21,7 @@ import (
 	"verif/ev"
 	"verif/mcx"
 	"verif/vrt"
+	"verif/worlds/track"
 	"verif/worlds/udpw"
 )
 
@@ -86,7 +87,10 @@ func scenario(c cfg) *mcx.Scenario {
 			var w *udpw.World
 			vrt.App("env", func() {
 				opts := udpw.Opts{MaxRetransmit: 0, QueueSize: 4, LimitTotal: 4, LimitEndpoint: 4, Handler: func(rw *responsewriter.ResponseWriter[*client.Conn], r *pool.Message) {
+					track.Hold(r, "request inside a handler")
+					defer track.Unhold(r)
 					handlerCalls[r.MessageID()]++
+					vrt.Point("handler body")
 					for _, k := range c.K {
 						if k.MID == r.MessageID() && k.Reply {
 							nonce++
